@@ -1,1 +1,64 @@
 //! Verification hooks: heap layout (cargo feature `mmtk_verif`; add-only wrappers).
+
+/// Space descriptors from raw bits (the type is crate-private): decoders and the global counter.
+pub mod desc {
+    use crate::util::heap::space_descriptor::{self, SpaceDescriptor};
+
+    fn mk(raw: usize) -> SpaceDescriptor {
+        // SpaceDescriptor is repr(transparent) over usize.
+        unsafe { std::mem::transmute::<usize, SpaceDescriptor>(raw) }
+    }
+
+    /// Raw bits of a descriptor.
+    pub(crate) fn raw(d: SpaceDescriptor) -> usize {
+        unsafe { std::mem::transmute::<SpaceDescriptor, usize>(d) }
+    }
+
+    pub(crate) fn from_raw(raw: usize) -> SpaceDescriptor {
+        mk(raw)
+    }
+
+    /// `create_descriptor_from_heap_range(start, end)`, raw bits only.
+    pub fn create_from_heap_range(start: usize, end: usize) -> usize {
+        use crate::util::Address;
+        let (s, e) = unsafe { (Address::from_usize(start), Address::from_usize(end)) };
+        raw(SpaceDescriptor::create_descriptor_from_heap_range(s, e))
+    }
+
+    /// `create_descriptor()`, raw bits.
+    pub fn create_discontiguous() -> usize {
+        raw(SpaceDescriptor::create_descriptor())
+    }
+
+    /// Set the global discontiguous counter (`None` = its initial value).
+    pub fn set_discontiguous_counter(v: Option<usize>) {
+        space_descriptor::verif_set_discontiguous_index(
+            v.unwrap_or(space_descriptor::VERIF_DISCONTIG_INDEX_INCREMENT),
+        )
+    }
+
+    /// `is_empty`
+    pub fn is_empty(raw: usize) -> bool {
+        mk(raw).is_empty()
+    }
+    /// `is_contiguous`
+    pub fn is_contiguous(raw: usize) -> bool {
+        mk(raw).is_contiguous()
+    }
+    /// `is_contiguous_hi`
+    pub fn is_contiguous_hi(raw: usize) -> bool {
+        mk(raw).is_contiguous_hi()
+    }
+    /// `get_start`
+    pub fn get_start(raw: usize) -> usize {
+        mk(raw).get_start().as_usize()
+    }
+    /// `get_extent`
+    pub fn get_extent(raw: usize) -> usize {
+        mk(raw).get_extent()
+    }
+    /// `get_index`
+    pub fn get_index(raw: usize) -> usize {
+        mk(raw).get_index()
+    }
+}
